@@ -493,6 +493,180 @@ func runTabModel(mut string, depth int) (sigs map[string]bool) {
 	return
 }
 
+// ------------------------------------------------------------ tables: the pair family
+
+// pairModelFine: the representation of a pair key, read off its name (the model never builds slip objects).
+func pairModelFine(k string) string {
+	switch {
+	case strings.HasPrefix(k, "big"):
+		return "bignum"
+	case k == "nil" || k == "t":
+		return "symbol"
+	case strings.HasPrefix(k, "sabc") || k == "SABC" || k == "szz":
+		return "string"
+	case k == "ca" || k == "cA":
+		return "character"
+	case strings.HasPrefix(k, "y") || strings.HasPrefix(k, "k"):
+		return "symbol"
+	case strings.HasPrefix(k, "r"):
+		return "ratio"
+	case strings.HasPrefix(k, "d"):
+		return "double-float"
+	case strings.HasPrefix(k, "f"):
+		return "single-float"
+	case strings.HasPrefix(k, "l"):
+		return "long-float"
+	case strings.HasPrefix(k, "c"):
+		return "complex"
+	case strings.HasPrefix(k, "i"):
+		return "fixnum"
+	}
+	return "other"
+}
+
+// pairSynthEquiv: what a coherent eql gives on the pair alphabet.
+func pairSynthEquiv() *equiv {
+	e := &equiv{name: "the model's eql", class: map[string]int{}}
+	n := 0
+	for _, g := range pairGroups {
+		var parts [][]string
+		switch g.name {
+		case "third":
+			parts = [][]string{{"r13"}, {"d13", "r13x"}, {"f13"}}
+		case "infinite":
+			parts = [][]string{{"dinf", "dinf_b", "finf", "linf"}, {"dminf"}}
+		case "character":
+			parts = [][]string{{"ca"}, {"cA"}}
+		case "string":
+			parts = [][]string{{"sabc_a", "sabc_b"}, {"SABC"}}
+		case "symbol":
+			for _, k := range g.keys {
+				parts = append(parts, []string{k})
+			}
+		default:
+			parts = [][]string{g.keys}
+		}
+		for _, p := range parts {
+			for _, k := range p {
+				e.class[k] = n
+			}
+			n++
+		}
+	}
+	for _, k := range pairBystanders {
+		e.class[k] = n
+		n++
+	}
+	return e
+}
+
+// pairModelTable is modelTable with the defects of a table that looks numbers up by representation.
+type pairModelTable struct {
+	modelTable
+}
+
+func (t *pairModelTable) findPair(k string) int {
+	for i, s := range t.slots {
+		if s.key == k {
+			return i
+		}
+		if t.e.cls(s.key) != t.e.cls(k) {
+			if t.mut == "search-stops-at-the-first-number-key" && pairModelFine(s.key) != "string" && pairModelFine(s.key) != "symbol" &&
+				pairModelFine(s.key) != "character" && pairModelFine(k) != "string" && pairModelFine(k) != "symbol" && pairModelFine(k) != "character" {
+				return -1
+			}
+			continue
+		}
+		fk, fs := pairModelFine(k), pairModelFine(s.key)
+		switch t.mut {
+		case "value-held-key-looked-up-directly-skips-reference-held-entries":
+			// the seeded defect: only a key held by reference searches the table; a float goes to the map directly, which
+			// finds the fixnum an integral value is normalised to and any entry held by value with the same bits
+			if !heldByReference(fk) && heldByReference(fs) && nonIntegralKey[s.key] {
+				continue
+			}
+		case "negative-zero-is-its-own-key":
+			if strings.HasSuffix(k, "m0") != strings.HasSuffix(s.key, "m0") {
+				continue
+			}
+		}
+		return i
+	}
+	return -1
+}
+
+func (t *pairModelTable) apply(op string) (string, tri) {
+	parts := strings.Split(op, ":")
+	switch parts[0] {
+	case "set":
+		if i := t.findPair(parts[1]); i < 0 {
+			t.slots = append(t.slots, entry{parts[1], parts[2]})
+			t.cnt++
+		} else {
+			t.slots[i].val = parts[2]
+		}
+		return parts[2], tri{v: 1}
+	case "rem":
+		i := t.findPair(parts[1])
+		if i < 0 {
+			return "nil", tri{v: 1}
+		}
+		t.slots = append(t.slots[:i:i], t.slots[i+1:]...)
+		t.cnt--
+		return "t", tri{v: 1}
+	}
+	return t.modelTable.apply(op)
+}
+
+func (t *pairModelTable) probe(k string) probeRes {
+	i := t.findPair(k)
+	if i < 0 {
+		return probeRes{val: "nil", bad: tri{v: 1}}
+	}
+	return probeRes{val: t.slots[i].val, found: true, bad: tri{v: 1}}
+}
+
+var pairMutants = []string{"value-held-key-looked-up-directly-skips-reference-held-entries", "search-stops-at-the-first-number-key",
+	"negative-zero-is-its-own-key"}
+
+// runPairModel replays the 1- and 2-operation histories of the pair family (test eql, with and without bystanders, keys of
+// one group or of neighbouring groups) on the model.
+func runPairModel(mut string) (sigs map[string]bool, hits map[string]int) {
+	sigs, hits = map[string]bool{}, map[string]int{}
+	e := pairSynthEquiv()
+	run := func(bg bool, ops ...string) {
+		var keys []string
+		seen := map[string]bool{}
+		for _, op := range ops {
+			k := strings.Split(op, ":")[1]
+			if !seen[k] {
+				seen[k] = true
+				keys = append(keys, k)
+			}
+		}
+		t := &pairModelTable{modelTable{mut: mut, e: e}}
+		v := runPairHistory(t, "eql", bg, ops, keys, pairModelFine, func(*tableObs, []string) []*equiv { return []*equiv{e} })
+		for _, f := range v.fails {
+			sigs[f.Sig] = true
+		}
+		for _, h := range v.hits {
+			hits[h]++
+		}
+	}
+	for _, bg := range []bool{false, true} {
+		for _, k1 := range pairKeys {
+			run(bg, "set:"+k1+":a")
+			for _, k2 := range pairKeys {
+				if pairNear(k1, k2) {
+					run(bg, "set:"+k1+":a", "set:"+k2+":b")
+					run(bg, "set:"+k1+":a", "rem:"+k2)
+				}
+			}
+		}
+	}
+	return
+}
+
 // ------------------------------------------------------------ driver
 
 func selftest(tier string) (killed, total int, notes []string) {
@@ -519,6 +693,26 @@ func selftest(tier string) (killed, total int, notes []string) {
 	if s := runTabModel("", 2); 0 < len(s) {
 		refOK = false
 		notes = append(notes, "REFERENCE table model fails its own oracle: "+first(s))
+	}
+	pairRef, pairHits := runPairModel("")
+	if 0 < len(pairRef) {
+		refOK = false
+		notes = append(notes, "REFERENCE pair-family table model fails its own oracle: "+first(pairRef))
+	}
+	for _, h := range pairRequired {
+		if pairHits[h] == 0 && h != "pair-addresses-key-equivalent-under-the-named-test-only" { // the model has one test
+			refOK = false
+			notes = append(notes, "pair family on the reference model never hits "+h)
+		}
+	}
+	for _, m := range pairMutants {
+		total++
+		if s, _ := runPairModel(m); 0 < len(s) && refOK {
+			killed++
+			notes = append(notes, "table-pairs/"+m+": caught by "+first(s))
+		} else {
+			notes = append(notes, "table-pairs/"+m+": NOT caught")
+		}
 	}
 	for _, m := range relMutants {
 		total++
